@@ -401,6 +401,19 @@ def run_static(cases, stats, cast_log, sources=None):
                     cast_log.add((t.dtype.name, arr.tobytes(), arr.shape, ld))
                     outs.append(("C", ld, arr.ndim == 1, np_cast(arr, ld)))
                     stats["static_castlike"] += 1
+                    case["_cast_emitted"] = True
+                    if case["opset"] < 15:
+                        case["_castlike_below15"] = True  # CastLike exists from opset 15 only (finding D47)
+                elif prod.op_type == "Cast" and prod.inputs[0].producer() is not None and prod.inputs[0].producer().op_type == "Constant" \
+                        and "value" in prod.inputs[0].producer().attributes:
+                    # a literal promoted with Cast(to=<static type of the sibling>) — what the converter emits below opset 15 after fix D47
+                    t = prod.inputs[0].producer().attributes["value"].value
+                    ld = ir.DataType(prod.attributes["to"].value).name
+                    arr = t.numpy()
+                    cast_log.add((t.dtype.name, arr.tobytes(), arr.shape, ld))
+                    outs.append(("C", ld, arr.ndim == 1, np_cast(arr, ld)))
+                    stats["static_cast"] += 1
+                    case["_cast_emitted"] = True
                 else:
                     outs.append(("?", prod.op_type))
             results.append(outs)
@@ -912,6 +925,9 @@ def check_scope(run, drv, cases, stats, cast_log):
         if not isinstance(r, str) and any(o[0] == "?" for o in r):
             problems.append((c, "static", "tie", f"unreadable operand {r} in\n{src}"))
             continue
+        if c.get("_castlike_below15"):
+            stats["castlike_below_opset15"] += 1
+            problems.append((c, "static", "property", f"[{c['placement']}/{c['form']}] CastLike emitted in an opset-{c['opset']} function (CastLike exists from opset 15 only)", "D47"))
         d = same_out(r, m_static, stats)
         if d:
             problems.append((c, "static", "tie", f"[{c['placement']}/{c['form']}] impl {show_out(r)} ; model {show_out(m_static)} : {d}"))
@@ -923,6 +939,244 @@ def check_scope(run, drv, cases, stats, cast_log):
                                  f"[{c['placement']}/{c['form']}] converter feeds {show_out(r)} ; rule {show_out(m_exp)} : {d} ; program:\n{src}", fid))
             else:
                 stats["outside_representable_not_judged"] += 1
+    return problems
+
+
+# --------------------------------------------------------------------------- converter: attribute parameters used as operands
+
+ATTR_KINDS = {"bool": ("True", "s:b1", "BOOL"), "int": ("2", "s:i2", "INT64"), "float": ("0.5", "s:" + "f+1/2", "FLOAT")}
+
+
+def attr_cases(byname, rng, n):
+    """A script function's attribute parameter (bool/int/float, with or without default) used beside a tensor — at top
+    level or inside an If body.  In eager mode it IS a Python number; the converter promotes it (`_to_onnx_var`:
+    Constant(ref attr) [+ Cast to BOOL]) and must CastLike it to the sibling like any literal."""
+    cases = []
+    combos = [(k, d, pl, form) for k in ATTR_KINDS for d in (False, True) for pl in ("top", "if") for form in ("operator", "call")]
+    i = 0
+    while len(cases) < n:
+        kind, dflt, pl, form = combos[i % len(combos)]
+        i += 1
+        op = rng.choice(sorted(SCOPE_OPS))
+        v = rng.choice([15, 18, 21, 23])
+        r = byname[(op, v)]
+        dt = rng.choice(["DOUBLE", "FLOAT16", "FLOAT", "INT32", "INT64", "UINT8"])
+        lit_first = rng.random() < 0.4
+        args = [ATTR_KINDS[kind][1], f"t:{dt}:1"] if lit_first else [f"t:{dt}:1", ATTR_KINDS[kind][1]]
+        cases.append(dict(op=op, opset=v, sig=r["sig"], raw=r["raw"], args=args, kind="attr", attr_kind=kind, default=dflt,
+                          placement=pl, form=form))
+    return cases
+
+
+def attr_source(i: int, c: dict):
+    v, op = c["opset"], c["op"]
+    lit_pos = 0 if c["args"][0][0] == "s" else 1
+    dt = c["args"][1 - lit_pos].split(":")[1]
+    a = "alpha"
+    operands = (a, "x") if lit_pos == 0 else ("x", a)
+    expr = f"{operands[0]} {SCOPE_OPS[op]} {operands[1]}" if c["form"] == "operator" else f"opset{v}.{op}({operands[0]}, {operands[1]})"
+    decl = f"alpha: {c['attr_kind']}" + (f" = {ATTR_KINDS[c['attr_kind']][0]}" if c["default"] else "")
+    L = [f"@script(default_opset=opset{v})"]
+    if c["placement"] == "if":
+        L += [f"def f{i}(x: {dt}[2], c: BOOL, {decl}):", "    if c:", f"        y = {expr}", "    else:", f"        y = opset{v}.Identity(x)", "    return y"]
+    else:
+        L += [f"def f{i}(x: {dt}[2], {decl}):", f"    y = {expr}", "    return y"]
+    return f"f{i}", "\n".join(L) + "\n"
+
+
+def check_attr_params(run, drv, cases, stats):
+    lines = []
+    for c in cases:
+        lines += [case_line("static", c), case_line("expected", c)]
+    outs = drv.ask(lines)
+    bodies = [attr_source(i, c) for i, c in enumerate(cases)]
+    fn, err, modname = scriptgen.compile_functions(bodies, header_extra=HEADER_EXTRA)
+    import onnx_ir as ir
+
+    problems = []
+    for i, c in enumerate(cases):
+        m_static, m_exp = parse_model(outs[2 * i]), parse_model(outs[2 * i + 1])
+        name = f"f{i}"
+        stats["attr_cases"] += 1
+        stats["attr_" + c["attr_kind"] + ("_default" if c["default"] else "")] += 1
+        stats["static_cases"] += 1
+        if name in err:
+            stats["attr_refused"] += 1
+            stats["attr_refused:" + err[name][0] + ":" + err[name][1].replace("\n", " ")[:50]] += 1
+            continue
+        graph = fn[name].function_ir.graph
+        target = next((nd for nd in reversed(all_nodes(graph)) if nd.op_type == c["op"]), None)
+        if target is None:
+            stats["attr_refused"] += 1
+            continue
+        in_dtype = {v.name: (v.dtype.name if v.dtype is not None else None) for v in graph.inputs}
+        got = []
+        for v in target.inputs:
+            prod = v.producer() if v is not None else None
+            if v is None:
+                got.append(None)
+            elif prod is None:
+                got.append(in_dtype.get(v.name))
+            elif prod.op_type == "CastLike":
+                like = prod.inputs[1]
+                got.append(in_dtype.get(like.name) if like.producer() is None else "?")
+                stats["attr_castlike"] += 1
+            elif prod.op_type == "Cast":
+                got.append(ir.DataType(prod.attributes["to"].value).name)  # BOOL: the promoted bool attribute itself, not cast to the sibling
+            elif prod.op_type == "Constant":
+                a = next(iter(prod.attributes.values()))
+                got.append({"value_float": "FLOAT", "value_int": "INT64"}.get(a.name, "?"))
+            else:
+                got.append("?")
+        want = [o[1] for o in m_exp]
+        want_model = [o[1] for o in m_static]
+        src = bodies[i][1]
+        if got != want_model:
+            problems.append((c, "static", "tie", f"attribute parameter `alpha: {c['attr_kind']}`: converter operands have dtypes {got} ; model {want_model} ; program:\n{src}"))
+        if got != want:
+            problems.append((c, "static", "property", f"attribute parameter `alpha: {c['attr_kind']}` (a Python {c['attr_kind']} in eager mode) reaches {c['op']} with "
+                             f"dtypes {got} ; rule {want} ; program:\n{src}", None))
+    scriptgen.release(modname)
+    return problems
+
+
+# --------------------------------------------------------------------------- builder: FUNCTION bodies (build_function), serialized
+
+FUNC_SAFE_OPS = ["Add", "Sub", "Mul", "Div", "Max", "Min", "Sum", "Mean", "Where", "Pow", "Equal", "Less", "Greater", "PRelu", "Clip", "And", "Or"]
+
+
+def func_cases(rows, rng, n):
+    rs = [r for r in rows if r["op"] in FUNC_SAFE_OPS]
+    lits = LITSET + [0.1, 3, [2, 3, 4], 1.5, False, [1, 2.5]]
+    cases = []
+    while len(cases) < n:
+        r = rng.choice(rs)
+        nf = len(r["sig"])
+        m = nf + (rng.choice([0, 1, 2]) if r["sig"][-1][1] else 0)
+        base = rng.choice(["FLOAT16", "DOUBLE", "INT32", "UINT8", "FLOAT", "INT64", "BOOL"])
+        args = []
+        for i in range(m):
+            u = rng.random()
+            if i == 0 or u < 0.4:
+                args.append(f"t:{base}:{0 if rng.random() < 0.15 else 1}")
+            elif u < 0.95:
+                args.append(enc_lit(rng.choice(lits)))
+            else:
+                args.append("n")
+        while args and args[-1] == "n":
+            args.pop()
+        if not any(a[0] in "sl" for a in args):
+            args[-1] = enc_lit(rng.choice(lits))
+        cases.append(dict(op=r["op"], opset=rng.choice(r["opsets"]), sig=r["sig"], raw=r["raw"], args=args, kind="function"))
+    return cases
+
+
+def run_function_bodies(cases, stats):
+    """Trace each call as the body of an ir.Function with `builder.build_function`, serialize the function, and read the
+    operands of the operator from the FunctionProto (Constant nodes in any of their attribute forms, CastLike)."""
+    import onnx
+    import onnx_ir as ir
+    from onnx import numpy_helper
+
+    from onnxscript._internal import builder as B
+
+    results = []
+    for case in cases:
+        tensors, in_vals, lits = {}, [], []
+        for j, a in enumerate(case["args"]):
+            if a.startswith("t:"):
+                _, d, known = a.split(":")
+                v = ir.Value(name=f"x{j}", type=ir.TensorType(getattr(ir.DataType, d)) if known == "1" else None, shape=ir.Shape([2]) if known == "1" else None)
+                tensors[f"x{j}"] = d
+                in_vals.append(v)
+
+        def trace(op, *xs, case=case):
+            it = iter(xs)
+            call = [next(it) if a.startswith("t:") else (None if a == "n" else dec_lit(a)) for a in case["args"]]
+            return getattr(op, case["op"])(*call)
+
+        try:
+            fn = B.build_function(trace, in_vals, domain="c12.test", name="F", opset_imports={"": case["opset"]})
+            fp = ir.serde.serialize_function(fn)
+        except Exception as e:
+            results.append(err_kind(e))
+            continue
+        producers = {o: n for n in fp.node for o in n.output}
+        target = next((n for n in reversed(fp.node) if n.op_type == case["op"]), None)
+        if target is None:
+            results.append("ERR:other:no-target")
+            continue
+
+        def const_of(node):
+            a = node.attribute[0]
+            if a.name == "value":
+                arr = numpy_helper.to_array(a.t)
+            elif a.name == "value_float":
+                arr = np.array(a.f, dtype=np.float32)
+            elif a.name == "value_int":
+                arr = np.array(a.i, dtype=np.int64)
+            elif a.name == "value_floats":
+                arr = np.array(list(a.floats), dtype=np.float32)
+            elif a.name == "value_ints":
+                arr = np.array(list(a.ints), dtype=np.int64)
+            else:
+                return None
+            stats["function_const_" + a.name] += 1
+            return arr
+
+        outs = []
+        for name in target.input:
+            if name == "":
+                outs.append(("N",))
+            elif name in tensors:
+                outs.append(("P", tensors[name]))
+            else:
+                node = producers.get(name)
+                if node is not None and node.op_type == "Constant":
+                    arr = const_of(node)
+                    outs.append(("?", "constant-form") if arr is None else ("C", NP2NAME.get(arr.dtype, str(arr.dtype)), arr.ndim == 1, arr))
+                elif node is not None and node.op_type == "CastLike" and node.input[1] in tensors and producers.get(node.input[0]) is not None \
+                        and producers[node.input[0]].op_type == "Constant":
+                    arr = const_of(producers[node.input[0]])
+                    ld = tensors[node.input[1]]
+                    outs.append(("?", "constant-form") if arr is None else ("C", ld, arr.ndim == 1, np_cast(arr, ld)))
+                else:
+                    outs.append(("?", node.op_type if node is not None else name))
+        results.append(outs)
+    return results
+
+
+def check_function_bodies(run, drv, cases, stats):
+    lines = []
+    for c in cases:
+        lines += [case_line("builder", c), case_line("expected", c), case_line("repr", c)]
+    outs = drv.ask(lines)
+    real = run_function_bodies(cases, stats)
+    problems = []
+    for i, c in enumerate(cases):
+        m_b, m_e = parse_model(outs[3 * i]), parse_model(outs[3 * i + 1])
+        representable = outs[3 * i + 2] == "1"
+        r = real[i]
+        stats["function_cases"] += 1
+        stats["builder_cases"] += 1
+        if isinstance(r, str) and r.startswith("ERR:other"):
+            stats["function_other_error"] += 1
+            stats["function_err:" + r[:70]] += 1
+            continue
+        if not isinstance(r, str) and any(o[0] == "?" for o in r):
+            problems.append((c, "builder", "tie", f"function body: unreadable operand {r}"))
+            continue
+        d = same_out(r, m_b, stats)
+        if d:
+            problems.append((c, "builder", "tie", f"[serialized function body] impl {show_out(r)} ; model {show_out(m_b)} : {d}"))
+        if well_typed(c):
+            d = same_out(r, m_e)
+            if d:
+                fid = None if representable else classify(c, m_e)
+                if representable or fid:
+                    problems.append((c, "builder", "property", f"[build_function body, serialized] the operator is fed {show_out(r)} ; rule {show_out(m_e)} : {d}", fid))
+                else:
+                    stats["outside_representable_not_judged"] += 1
     return problems
 
 
@@ -1059,9 +1313,10 @@ def param_tok(p) -> str:
 
 
 def check_calls(run, drv, rows, rng, stats, n_static):
-    """`separate_input_attributes_from_arguments` on positional calls of every row, both `allow_extra_args` settings
-    (real function with sentinel arguments; the builder's `_partition_inputs_attributes`; the converter end to end on a
-    sample) vs OV.Call.separate."""
+    """`separate_input_attributes_from_arguments` on calls of every row — every number of positional arguments, plus
+    variants with later inputs/attributes given by keyword — both `allow_extra_args` settings (real function with
+    sentinel arguments; the builder's `_partition_inputs_attributes`; the converter end to end on a sample) vs
+    OV.Call.separate."""
     import onnxscript
     from onnxscript._internal import param_manipulation
 
@@ -1071,66 +1326,85 @@ def check_calls(run, drv, rows, rng, stats, n_static):
         limit = len(ps)
         for i, p in enumerate(ps):
             if p[0] == "A" and p[4] not in ATTR_VALUE:
-                limit = i  # positional values for graph/tensor-valued attributes are not generated
+                limit = i  # values for graph/tensor-valued attributes are not generated
                 break
         for n in range(0, limit + 1 + (1 if limit == len(ps) else 0)):
-            for ae in (True, False):
-                jobs.append((r, n, ae))
-                lines.append(f"sep {1 if ae else 0} {n} " + " ".join(param_tok(p) for p in ps))
+            kw_sets = [[]]
+            later = [i for i in range(n, limit) if not (ps[i][0] == "I" and ps[i][2])]  # a variadic input cannot be a keyword
+            for _ in range(2):
+                if later:
+                    kw_sets.append(sorted(rng.sample(later, rng.randint(1, min(2, len(later))))))
+            for kws in kw_sets:
+                for ae in (True, False):
+                    jobs.append((r, n, kws, ae))
+                    lines.append(f"sep {1 if ae else 0} {n} {','.join(map(str, kws)) or '-'} " + " ".join(param_tok(p) for p in ps))
     answers = drv.ask(lines)
     problems, static_jobs = [], []
     gb = new_builder(18)
-    for (r, n, ae), ans in zip(jobs, answers):
+    for (r, n, kws, ae), ans in zip(jobs, answers):
         v = r["opsets"][0]
         op = getattr(onnxscript, f"opset{v}")[r["op"]]
+        ps = r["params_full"]
         sentinels = [object() for _ in range(n)]
+        kwargs = {ps[i][1]: object() for i in kws}
         stats["calls_cases"] += 1
+        if kws:
+            stats["calls_with_keywords"] += 1
 
         def canon(fn):
             try:
                 ins, attrs = fn()
-                idx = {id(x): k for k, x in enumerate(sentinels)}
-                names = [p[1] for p in r["params_full"]]
-                return ("ok in=" + ",".join(str(idx[id(x)]) for x in ins) + " attr="
+                idx = {id(x): f"p{k}" for k, x in enumerate(sentinels)}
+                idx.update({id(kwargs[ps[i][1]]): f"k{i}" for i in kws})
+                names = [p[1] for p in ps]
+                return ("ok in=" + ",".join("-" if x is None else idx[id(x)] for x in ins) + " attr="
                         + ",".join(f"{names.index(k)}:{idx[id(val)]}" for k, val in attrs.items()))
             except TypeError as e:
                 msg = str(e)
                 return "ERR:missing" if "was not provided" in msg else "ERR:tooMany" if "Too many positional" in msg else f"ERR:other:{msg[:60]}"
 
         real = canon(lambda: param_manipulation.separate_input_attributes_from_arguments(
-            op.op_signature, list(sentinels), {}, fill_defaults=False, allow_extra_args=ae))
+            op.op_signature, list(sentinels), dict(kwargs), fill_defaults=False, allow_extra_args=ae))
         stats["calls_" + ans.split(" ")[0].replace(":", "_")] += 1
+        if "-" in ans.split(" ")[1] if ans.startswith("ok") else False:
+            stats["calls_placeholder"] += 1
+        tag = f"{n} positional" + (f" + keywords {[ps[i][1] for i in kws]}" if kws else "")
         if real != ans:
-            problems.append((r["op"], v, n, ae, f"separate_input_attributes_from_arguments: impl {real} ; model {ans}"))
+            problems.append((r["op"], v, tag, ae, f"separate_input_attributes_from_arguments: impl {real} ; model {ans}"))
         if not ae:
-            realb = canon(lambda: gb._partition_inputs_attributes(gb._get_schema(r["op"], "", v), list(sentinels), {}))
+            realb = canon(lambda: gb._partition_inputs_attributes(gb._get_schema(r["op"], "", v), list(sentinels), dict(kwargs)))
             if realb != ans:
-                problems.append((r["op"], v, n, ae, f"BuilderBase._partition_inputs_attributes: impl {realb} ; model {ans}"))
-        elif ans.startswith("ok") and n >= 1:
-            static_jobs.append((r, v, n, ans))
-    # converter end to end on a sample: number of operator inputs and the attribute names of the emitted node
+                problems.append((r["op"], v, tag, ae, f"BuilderBase._partition_inputs_attributes: impl {realb} ; model {ans}"))
+        elif ans.startswith("ok") and (n >= 1 or kws):
+            static_jobs.append((r, v, n, kws, ans))
+    # converter end to end on a sample: operator inputs (None positions) and the attribute names of the emitted node
     rng.shuffle(static_jobs)
-    static_jobs = static_jobs[:n_static]
+    static_jobs = sorted(static_jobs, key=lambda j: not j[3])[: n_static]  # calls with keywords first
     bodies = []
-    for i, (r, v, n, ans) in enumerate(static_jobs):
+    for i, (r, v, n, kws, ans) in enumerate(static_jobs):
         ps = r["params_full"]
         args, params = [], []
-        for k in range(n):
+
+        def value_for(k, positional):
             if k >= len(ps):
-                args.append("7")  # surplus positional argument
-            elif ps[k][0] == "A":
-                args.append(ATTR_VALUE[ps[k][4]])
-            elif k == 0 or rng.random() < 0.5:
+                return "7"  # surplus positional argument
+            if ps[k][0] == "A":
+                return ATTR_VALUE[ps[k][4]]
+            if (k == 0 and positional) or rng.random() < 0.5:
                 params.append(f"x{k}: FLOAT[2]")
-                args.append(f"x{k}")
-            else:
-                args.append("1")
+                return f"x{k}"
+            return "1"
+
+        for k in range(n):
+            args.append(value_for(k, True))
+        for k in kws:
+            args.append(f"{ps[k][1]}={value_for(k, False)}")
         if not params:
             params.append("z: FLOAT[2]")
         bodies.append((f"f{i}", f"@script(default_opset=opset{v})\ndef f{i}({', '.join(params)}):\n    r = opset{v}.{r['op']}({', '.join(args)})\n    return r\n"))
     if bodies:
         fn, err, modname = scriptgen.compile_functions(bodies, header_extra=HEADER_EXTRA)
-        for i, (r, v, n, ans) in enumerate(static_jobs):
+        for i, (r, v, n, kws, ans) in enumerate(static_jobs):
             name = f"f{i}"
             stats["calls_static"] += 1
             if name in err:
@@ -1142,12 +1416,13 @@ def check_calls(run, drv, rows, rng, stats, n_static):
                 continue
             m_in = ans.split(" ")[1][3:]
             m_attr = ans.split(" ")[2][5:]
-            want_in = len(m_in.split(",")) if m_in else 0
+            want_in = [t == "-" for t in m_in.split(",")] if m_in else []
             want_attrs = sorted(r["params_full"][int(q.split(":")[0])][1] for q in m_attr.split(",")) if m_attr else []
             got_attrs = sorted(node.attributes.keys())
-            if len(node.inputs) != want_in or got_attrs != want_attrs:
-                problems.append((r["op"], v, n, True, f"converter: node has {len(node.inputs)} inputs and attributes {got_attrs} ; model {ans} "
-                                 f"({want_in} inputs, attributes {want_attrs}) ; program:\n{bodies[i][1]}"))
+            got_in = [x is None for x in node.inputs]
+            if got_in != want_in or got_attrs != want_attrs:
+                problems.append((r["op"], v, f"{n} positional + keywords {kws}", True,
+                                 f"converter: node inputs (True = absent) {got_in} and attributes {got_attrs} ; model {ans} ; program:\n{bodies[i][1]}"))
         scriptgen.release(modname)
     return problems
 
@@ -1394,7 +1669,8 @@ def check_batch(run, drv, cases, stats, rec, cast_log, e2e_every=0):
     """Returns problems: (case, front_end, kind in {tie, property}, detail)."""
     lines = []
     for c in cases:
-        lines += [case_line("static", c), case_line("dynamic", c), case_line("builder", c), case_line("expected", c), case_line("repr", c)]
+        lines += [case_line("static", c), case_line("dynamic", c), case_line("builder", c), case_line("expected", c), case_line("repr", c),
+                  case_line("castlike", c)]
     outs = drv.ask(lines)
     st_cases = [c for c in cases if static_applicable(c)]
     st_res = dict(zip(map(id, st_cases), run_static(st_cases, stats, cast_log))) if st_cases else {}
@@ -1402,8 +1678,9 @@ def check_batch(run, drv, cases, stats, rec, cast_log, e2e_every=0):
     bu_res = run_builder(cases, stats, cast_log)
     problems = []
     for i, c in enumerate(cases):
-        m = {k: parse_model(outs[5 * i + j]) for j, k in enumerate(["static", "dynamic", "builder", "expected"])}
-        representable = outs[5 * i + 4] == "1"
+        m = {k: parse_model(outs[6 * i + j]) for j, k in enumerate(["static", "dynamic", "builder", "expected"])}
+        representable = outs[6 * i + 4] == "1"
+        m_castlike = outs[6 * i + 5] == "1"
         wt = well_typed(c)
         stats["cases"] += 1
         stats["kind_" + c["kind"]] += 1
@@ -1430,6 +1707,13 @@ def check_batch(run, drv, cases, stats, rec, cast_log, e2e_every=0):
                 d = same_out(real[fe], as_model(real["static"]))
                 if d:
                     problems.append((c, fe, "property", f"mixed-type list: {fe} feeds {show_out(real[fe])} ; converter {show_out(real['static'])} : {d}", None))
+        if id(c) in st_res and not isinstance(st_res[id(c)], str) and bool(c.get("_cast_emitted")) != m_castlike:
+            problems.append((c, "static", "tie", f"converter {'emits' if c.get('_cast_emitted') else 'does not emit'} a CastLike/Cast for a literal ; "
+                             f"model usesCastLike = {m_castlike}"))
+        if c.get("_castlike_below15"):
+            stats["castlike_below_opset15"] += 1
+            problems.append((c, "static", "property", f"the converter promotes the literal with CastLike in an opset-{c['opset']} function; "
+                             "CastLike exists from opset 15 only, the model is rejected by onnxruntime while eager mode computes the result", "D47"))
         for fe, r in real.items():
             stats[fe + "_cases"] += 1
             if isinstance(r, str) and r.startswith("REFUSED"):
@@ -1474,6 +1758,8 @@ CORPUS = [
     ("Add", 18, ["t:INT64:1", "l:b1,i1"]),
     ("Concat", 18, ["l:" + enc_scalar(2.5) + ",i1", "t:FLOAT16:1", "l:i1,b1"]),
     ("Add", 18, ["t:INT64:1", "s:" + enc_scalar(2.5)]),
+    ("Add", 13, ["t:DOUBLE:1", "s:i1"]),                 # D47: CastLike in an opset-13 function
+    ("Mul", 14, ["s:" + enc_scalar(2.5), "t:FLOAT16:1"]),
     ("Add", 18, ["s:i1", "t:FLOAT:0"]),
     ("Where", 18, ["s:b1", "t:FLOAT:1", "t:DOUBLE:1"]),
     ("Sum", 18, ["t:FLOAT:1", "s:i1", "t:DOUBLE:1", "s:i2"]),
@@ -1586,6 +1872,10 @@ def main(run: core.Run) -> None:
                 probs = check_history(run, drv, items, stats)
             elif cc.get("kind") == "scope":
                 probs = check_scope(run, drv, [cc], stats, cast_log)
+            elif cc.get("kind") == "attr":
+                probs = check_attr_params(run, drv, [cc], stats)
+            elif cc.get("kind") == "function":
+                probs = check_function_bodies(run, drv, [cc], stats)
             else:
                 probs = check_batch(run, drv, [cc], stats, rec, cast_log)
             for p in probs:
@@ -1620,6 +1910,14 @@ def main(run: core.Run) -> None:
     for k in range(0, len(sc), 300):
         all_problems.extend(check_scope(run, drv, sc[k : k + 300], stats, cast_log))
     seen.update(scope_key(c) for c in sc)
+
+    # ---- converter: attribute parameters (bool/int/float, with/without default) used as operands
+    ac = attr_cases(byname, run.rng, run.size(192, 1920))
+    for k in range(0, len(ac), 300):
+        all_problems.extend(check_attr_params(run, drv, ac[k : k + 300], stats))
+
+    # ---- builder: calls traced as FUNCTION bodies (build_function), read back from the serialized FunctionProto
+    all_problems.extend(check_function_bodies(run, drv, func_cases(rows, run.rng, run.size(600, 8000)), stats))
 
     # ---- converter: castable bookkeeping across nested scopes vs OV.Scope (instruction programs)
     progs = [gen_scope_program(run.rng) for _ in range(run.size(150, 2000))]
@@ -1683,11 +1981,11 @@ def main(run: core.Run) -> None:
                 run.known("D10", detail)
         else:
             cache_viol.append((seq, j, k, detail))
-    for fid in ("D10", "D21", "D23"):
+    for fid in ("D10", "D21", "D23", "D47"):
         stats["known_" + fid] = known[fid]
 
     def slim(c):
-        return {k: c[k] for k in ("op", "opset", "sig", "raw", "args", "kind", "placement", "form", "order") if k in c}
+        return {k: c[k] for k in ("op", "opset", "sig", "raw", "args", "kind", "placement", "form", "order", "attr_kind", "default") if k in c}
 
     if prop_fail:
         prop_fail.sort(key=lambda p: (len(p[0]["args"]), len(str(p[0]["args"]))))
@@ -1724,9 +2022,9 @@ def main(run: core.Run) -> None:
                           no_input="does not CastLike" not in detail)
         elif call_tie:
             opn, v, n, ae, detail = call_tie[0]
-            run.violation({"call": dict(op=opn, opset=v, positional_args=n, allow_extra_args=ae), "detail": detail, "others": len(call_tie) - 1,
+            run.violation({"call": dict(op=opn, opset=v, arguments=n, allow_extra_args=ae), "detail": detail, "others": len(call_tie) - 1,
                            "broken": "correspondence OV.Call.separate vs param_manipulation.separate_input_attributes_from_arguments"},
-                          f"correspondence broken (positional arguments of {opn}@{v} with {n} arguments, allow_extra_args={ae}): {detail}", no_input=True)
+                          f"correspondence broken (arguments of {opn}@{v}: {n}, allow_extra_args={ae}): {detail}", no_input=True)
         elif session_tie:
             sess, detail = min(session_tie, key=lambda v: len(v[0]))
             run.violation({"session": [slim(c) for c in sess], "detail": detail,
@@ -1773,8 +2071,8 @@ def main(run: core.Run) -> None:
                 "tail_nonhomogeneous", "tail_toomany", "conflicting_siblings", "arg_tensor_unknown", "arg_none", "arg_list",
                 "has_concrete_typed_formal", "builder_end_to_end", "scope_if_outer", "scope_loop_outer", "scope_if_inner", "scope_top",
                 "history_calls", "session_calls", "session_shared_initializers", "session_err_overflow", "session_err_tooMany",
-                "scopemodel_uses", "scopemodel_castable", "calls_ok", "calls_ERR_missing", "calls_ERR_tooMany", "calls_static",
-                "cache_hits", "cache_err_overflow", "ort_cast_validated"]
+                "scopemodel_uses", "scopemodel_castable", "calls_ok", "calls_ERR_missing", "calls_ERR_tooMany", "calls_static", "calls_with_keywords", "calls_placeholder", "attr_castlike", "attr_bool", "attr_bool_default", "attr_int", "attr_float_default", "function_cases",
+                "function_const_value", "cache_hits", "cache_err_overflow", "ort_cast_validated"]
     zero = [k for k in required if not stats[k]]
     run.coverage["required_counters"] = {k: stats[k] for k in required}
     if zero and not run.violations:
